@@ -508,24 +508,26 @@ pub fn run(case: &str, input: &str) -> String {
         }
         ("sort", _) => {
             let Some(l) = nums(&f[1].split(',').collect::<Vec<_>>()) else { return "bad-case".into() };
+            let style = l.iter().fold(l.len() as u64, |a, n| a.wrapping_mul(31).wrapping_add(*n));
             guarded(move || {
                 // direct Vec<Repository>::sort from the given initial order
                 let mut v: Vec<Repository> = l
                     .iter()
                     .map(|n| Repository {
-                        name: if *n == 0 { "ffxiv".into() } else { format!("ex{}", n) },
+                        name: if *n == 0 { "ffxiv".into() } else { spelled(*n, style) },
                         platform: Platform::Win32,
                         repo_type: if *n == 0 { RepositoryType::Base } else { RepositoryType::Expansion { number: *n as i32 } },
                         version: None,
                     })
                     .collect();
                 v.sort();
-                let direct: Vec<String> = v.iter().map(|r| r.name.clone()).collect();
+                let direct: Vec<String> = v.iter().map(canonical_name).collect();
                 direct.join(",")
             })
         }
         ("discover", _) => {
             let Some(l) = nums(&f[1].split(',').collect::<Vec<_>>()) else { return "bad-case".into() };
+            let style = l.iter().fold(l.len() as u64, |a, n| a.wrapping_mul(31).wrapping_add(*n));
             guarded(move || {
                 // directories created in the given order, then GameData::from_existing
                 let tmp = TempDir::new("c15-sort");
@@ -533,20 +535,45 @@ pub fn run(case: &str, input: &str) -> String {
                 std::fs::create_dir_all(game.join("sqpack")).unwrap();
                 for n in &l {
                     if *n != 0 {
-                        std::fs::create_dir_all(game.join("sqpack").join(format!("ex{}", n))).unwrap();
+                        std::fs::create_dir_all(game.join("sqpack").join(spelled(*n, style))).unwrap();
                     } else {
                         std::fs::create_dir_all(game.join("sqpack").join("ffxiv")).unwrap();
                     }
                 }
                 let gd = physis::gamedata::GameData::from_existing(Platform::Win32, game.to_str().unwrap());
                 let disc: Vec<String> = match gd {
-                    Some(g) => g.repositories.iter().map(|r| r.name.clone()).collect(),
+                    Some(g) => g.repositories.iter().map(canonical_name).collect(),
                     None => vec!["none".into()],
                 };
                 disc.join(",")
             })
         }
         _ => "bad-case".into(),
+    }
+}
+
+/// The folder of expansion `n` as this case spells it: the order of repositories is by NUMBER, and
+/// the number is what `Repository::from_existing_expansion` reads from the third character, so two
+/// cases out of three spell some folders in another letter case or with a suffix (`EX2`, `Ex4`,
+/// `ex3b`); answers are reported by number (`canonical_name`), whatever the spelling.
+fn spelled(n: u64, style: u64) -> String {
+    if style % 3 == 0 {
+        return format!("ex{}", n);
+    }
+    match (style / 3 + n * 5) % 6 {
+        0 => format!("EX{}", n),
+        1 => format!("Ex{}", n),
+        2 => format!("eX{}", n),
+        3 => format!("ex{}b", n),
+        4 => format!("ex{}0", n),
+        _ => format!("ex{}", n),
+    }
+}
+
+fn canonical_name(r: &Repository) -> String {
+    match r.repo_type {
+        RepositoryType::Base => "ffxiv".to_string(),
+        RepositoryType::Expansion { number } => format!("ex{}", number),
     }
 }
 
